@@ -392,10 +392,63 @@ for _sp in _OMD:
 # (Copies of the C02 specs that differ in `tie_theorem` only; `py2lean.generate` emits one definition per `lean_name`.)
 _C03 = [dict(_sp, tie_theorem=_sp['tie_theorem'].replace('C02.', 'C03.')) for _sp in _LRI + _LRU]
 
+# boltons.fileutils.AtomicSaver / atomic_rename / replace / set_cloexec (round 3c, EFFECT MODE: harness/py2lean_c05.py,
+# notes/SRCTIE.md "Effect mode").  Every `os.*` / `fcntl.fcntl` / file-object call is a field of the generated record
+# `Src.fileutils.Sys W Path Fd File Mode Obj` over an abstract world `W`; `Path`, `Fd`, `File`, `Mode` (the mode string
+# handed to os.fdopen) and `Obj` (exc_type / exc_val / exc_tb: None or an always-true object) are type parameters: the
+# code only passes these values around.  Platform fixed by the spec: posix, `fcntl` importable.  `__init__` is not
+# translated (kwargs.pop, os.path.*): the attributes it leaves are the state record.
+FILEUTILS_EFFECTS = {
+    'tparams': ['Path', 'Fd', 'File', 'Mode', 'Obj'],
+    'truthy': ['File', 'Obj'],          # objects whose truth value is always True (file objects, classes)
+    'ops': {
+        'os.stat': ('os_stat', ['Path'], 'StatRes'),
+        'os.path.lexists': ('os_path_lexists', ['Path'], 'Bool'),
+        'os.open': ('os_open', ['Path', 'Nat', 'Nat'], 'Fd'),
+        'os.fdopen': ('os_fdopen', ['Fd', 'Mode', 'Int'], 'File'),
+        'os.chmod': ('os_chmod', ['Path', 'Nat'], 'None'),
+        'os.unlink': ('os_unlink', ['Path'], 'None'),
+        'os.close': ('os_close', ['Fd'], 'None'),
+        'os.fsync': ('os_fsync', ['Fd'], 'None'),
+        'os.rename': ('os_rename', ['Path', 'Path'], 'None'),
+        'os.link': ('os_link', ['Path', 'Path'], 'None'),
+        'fcntl.fcntl': ('fcntl_fcntl', ['Fd', 'Nat', 'Nat'], 'Nat'),
+    },
+    'methods_of': {'File': {'flush': ('file_flush', [], 'None'), 'close': ('file_close', [], 'None'),
+                            'fileno': ('file_fileno', [], 'Fd')}},
+    'pure': {'stat.S_IMODE': ('PyRtC05.S_IMODE', ['Nat'], 'Nat')},
+    # constants of the platform the spec fixes (Linux); the self-test checks them against the running interpreter
+    'consts': {'errno.ENOENT': 2, 'errno.EEXIST': 17, 'fcntl.F_GETFD': 1, 'fcntl.F_SETFD': 2, 'fcntl.FD_CLOEXEC': 1},
+}
+ATOMIC_SAVER = {
+    'name': 'AtomicSaver', 'lean_name': 'AtomicSaver',
+    'state': {'dest_path': 'Path', 'part_path': 'Path', 'overwrite': 'Bool', 'file_perms': 'Option Nat',
+              'overwrite_part': 'Bool', 'rm_part_on_exc': 'Bool', 'mode': 'Mode', 'buffering': 'Int',
+              'open_flags': 'Nat', 'part_file': 'Option File'},
+}
+_OBJ3 = {'exc_type': 'Option Obj', 'exc_val': 'Option Obj', 'exc_tb': 'Option Obj'}
+_C05 = []
+for _q, _n, _cls, _params, _res, _thm in [
+        ('set_cloexec', 'set_cloexec', None, {'fd': 'Fd'}, 'None', 'C05.src_set_cloexec_eq_model'),
+        ('replace', 'replace', None, {'src': 'Path', 'dst': 'Path'}, 'None', 'C05.src_replace_eq_model'),
+        ('atomic_rename', 'atomic_rename', None, {'src': 'Path', 'dst': 'Path', 'overwrite': 'Bool'}, 'None',
+         'C05.src_atomic_rename_eq_model'),
+        ('AtomicSaver._rm_part_on_exc', 'AtomicSaver.rm_part_on_exc', ATOMIC_SAVER, {}, 'None',
+         'C05.src_rm_part_on_exc_eq_model'),
+        ('AtomicSaver._open_part_file', 'AtomicSaver.open_part_file', ATOMIC_SAVER, {}, 'None',
+         'C05.src_open_part_file_eq_model'),
+        ('AtomicSaver.setup', 'AtomicSaver.setup', ATOMIC_SAVER, {}, 'None', 'C05.src_setup_eq_model'),
+        ('AtomicSaver.__enter__', 'AtomicSaver.enter', ATOMIC_SAVER, {}, 'Option File', 'C05.src_enter_eq_model'),
+        ('AtomicSaver.__exit__', 'AtomicSaver.exit', ATOMIC_SAVER, _OBJ3, 'None', 'C05.src_exit_eq_model')]:
+    _C05.append({'module': 'boltons.fileutils', 'qualname': _q, 'lean_name': _n, 'cls': _cls, 'params': _params,
+                 'result': _res, 'tie_theorem': _thm, 'effect': FILEUTILS_EFFECTS, 'translator': 'py2lean_c05',
+                 'py': _q.split('.')[-1], 'method': _cls is not None, 'kind': 'function', 'raises': True})
+
 SPECS = {
     'C18': _MFR + _SB,
     'C13': _FB,
     'C01': _OMD,
+    'C05': _C05,
     'C02': _LRI + _LRU,
     'C03': _C03,
     'C20': _TC,
